@@ -91,6 +91,24 @@ theorem i256_checked_neg (a : I256) (ha : a.WF) :
     (a.checkedNeg = none ↔ ¬ (-(2 ^ 255 : Int) ≤ -a.value ∧ -a.value < 2 ^ 255)) :=
   checkedNeg_spec a ha
 
+/-- **`mulx` loses no carry**: for all `u128` operands the four 64×64 partial products with
+their carry shuffling give exactly the 256-bit product, `low + 2^128·high = a·b`, and no
+intermediate `u128` addition or shift overflows (every step is modelled with wrap-around, so
+a lost carry would falsify the equation).  Depends on the shift amounts `64` regenerated from
+the source. -/
+theorem i256_mulx_exact (a b : Nat) (ha : a < 2 ^ 128) (hb : b < 2 ^ 128) :
+    (mulx a b).1 < 2 ^ 128 ∧ (mulx a b).2 < 2 ^ 128 ∧ (mulx a b).1 + 2 ^ 128 * (mulx a b).2 = a * b :=
+  mulx_exact a b ha hb
+
+/-- **`i256::wrapping_mul`** (`mulx` of the low limbs plus the two cross products into the high
+limb) denotes `a · b` modulo `2^256`. -/
+theorem i256_wrapping_mul (a b : I256) (ha : a.WF) (hb : b.WF) :
+    (a.wrappingMul b).WF ∧ (a.wrappingMul b).value = wrap256 (a.value * b.value) :=
+  wrappingMul_value a b ha hb
+
+/-- non-vacuity: both 64-bit halves set, product needs all four partial products -/
+example : mulx (2 ^ 128 - 1) (2 ^ 128 - 1) = (1, 2 ^ 128 - 2) := by decide
+
 /-- **`impl Ord for i256`** (`high.cmp().then(low.cmp())`) is the order of the denoted integers. -/
 theorem i256_cmp (a b : I256) (ha : a.WF) (hb : b.WF) : a.cmp b = compare a.value b.value :=
   cmp_eq a b ha hb
@@ -110,6 +128,37 @@ theorem i256_to_i128 (a : I256) (ha : a.WF) :
 example : (I256.MAX).WF ∧ (I256.ONE).WF ∧ (I256.MAX.checkedAdd I256.ONE) = none ∧
     (I256.MAX.wrappingAdd I256.ONE) = I256.MIN :=
   ⟨by simp only [I256.WF, I256.MAX]; omega, by simp only [I256.WF, I256.ONE]; omega, by decide, by decide⟩
+
+/-! ## native widths: `ArrowNativeTypeOp` glue (arrow-array/src/arithmetic.rs) -/
+
+/-- **wrapping = modulo the type width**: for `n ∈ {8,16,32,64,128}`, signed or unsigned, the
+wrapped value is representable, congruent to the exact value modulo `2^n`, and equal to it
+whenever the exact value is representable. -/
+theorem native_wrap (t : NT) (ht : t.bits ∈ stdWidths) (x : Int) :
+    t.inRange (t.wrap x) = true ∧ (t.wrap x - x) % (2 ^ t.bits : Int) = 0 ∧ (t.inRange x = true → t.wrap x = x) :=
+  wrap_spec t ht x
+
+/-- **`add_checked` / `sub_checked` / `mul_checked` / `div_checked` are exact or report an error**:
+`checked_op().ok_or(ArithmeticOverflow)`, with the zero test first for division
+(`DivideByZero` wins), is the specification `checkedSpec`. -/
+theorem native_checked (t : NT) (a b : Int) :
+    addChecked t a b = checkedSpec t .add a b ∧ subChecked t a b = checkedSpec t .sub a b ∧
+    mulChecked t a b = checkedSpec t .mul a b ∧ divChecked t a b = checkedSpec t .div a b :=
+  ⟨addChecked_spec t a b, subChecked_spec t a b, mulChecked_spec t a b, divChecked_eq_spec t a b⟩
+
+/-- **`div_checked` classifies exactly**: on representable operands it is `DivideByZero` iff the
+divisor is zero, `ArithmeticOverflow` iff the type is signed and the operands are `MIN / −1`,
+and the truncated quotient otherwise (no other quotient leaves the range). -/
+theorem native_div_checked (t : NT) (ht : t.bits ∈ stdWidths) (a b : Int)
+    (ha : t.inRange a = true) (hb : t.inRange b = true) :
+    divChecked t a b =
+      if b = 0 then .error .divzero
+      else if t.signed = true ∧ a = t.lo ∧ b = -1 then .error .overflow
+      else .ok (Int.tdiv a b) :=
+  divChecked_spec t ht a b ha hb
+
+example : divChecked ⟨true, 8⟩ (-128) (-1) = .error .overflow ∧ divChecked ⟨true, 8⟩ (-128) 0 = .error .divzero ∧
+    divChecked ⟨true, 8⟩ (-128) 3 = .ok (-42) := ⟨rfl, rfl, rfl⟩
 
 /-! ## `arity.rs`: null semantics of the element-wise kernels -/
 
@@ -175,6 +224,39 @@ theorem sum_checked_exact (t : NT) (vals : List Int) (valid : List Bool) :
       if prefixesInRange t 0 (nonNull (decode vals valid))
       then .ok ((nonNull (decode vals valid)).foldl (· + ·) 0) else .error .overflow :=
   sumCheckedLoop_spec t 0 vals valid
+
+/-- **lane-split aggregation = reduction over the non-null values** (`aggregate_nullable_lanes`
+/ `aggregate_nonnull_lanes` + `reduce_accumulators`): for every associative-commutative
+accumulator operation with identity `e` (the accumulators' `Default`), every power-of-two
+lane count `2^k` (the code asserts `LANES.is_power_of_two()`; the count itself is a tuning
+knob), every input and every null pattern, splitting the slots over the lanes, skipping null
+slots, and tree-reducing the lanes gives exactly the left fold of the non-null values;
+`None` iff there is no non-null value.  Null payloads do not occur on the right-hand side. -/
+theorem aggregate_lanes_reduce {α : Type} (op : α → α → α) (e : α)
+    (hc : ∀ x y, op x y = op y x) (ha : ∀ x y z, op (op x y) z = op x (op y z)) (he : ∀ x, op e x = x)
+    (k : Nat) (vals : List α) (valid : List Bool) :
+    aggregateLanes op e (2 ^ k) vals valid = reduceSpec op e (decode vals valid) :=
+  aggregateLanes_spec op e hc ha he k vals valid
+
+/-- **`sum`** (`SumAccumulator`, `add_wrapping`) on `n`-bit words: the lane-split wrapping sum is
+the sum of the non-null values modulo `2^n`, for every width, lane count and null pattern. -/
+theorem sum_lanes_wrapping (n k : Nat) (vals : List (BitVec n)) (valid : List Bool) :
+    aggregateLanes (· + ·) (0 : BitVec n) (2 ^ k) vals valid = reduceSpec (· + ·) 0 (decode vals valid) :=
+  aggregateLanes_spec _ _ BitVec.add_comm BitVec.add_assoc BitVec.zero_add k vals valid
+
+/-- **`max`** (`MaxAccumulator` starting from `MIN_TOTAL_ORDER`) on total-order keys (naturals, the
+least key as start): lane-split maximum = maximum of the non-null values. -/
+theorem max_lanes (k : Nat) (vals : List Nat) (valid : List Bool) :
+    aggregateLanes max 0 (2 ^ k) vals valid = reduceSpec max 0 (decode vals valid) :=
+  aggregateLanes_spec _ _ Nat.max_comm Nat.max_assoc Nat.zero_max k vals valid
+
+/-- **`product`** (`ProductAccumulator`, `mul_wrapping`) on `n`-bit words. -/
+theorem product_lanes_wrapping (n k : Nat) (vals : List (BitVec n)) (valid : List Bool) :
+    aggregateLanes (· * ·) (1 : BitVec n) (2 ^ k) vals valid = reduceSpec (· * ·) 1 (decode vals valid) :=
+  aggregateLanes_spec _ _ BitVec.mul_comm BitVec.mul_assoc BitVec.one_mul k vals valid
+
+example : aggregateLanes (· + ·) (0 : BitVec 8) (2 ^ 2) [200, 100, 7, 1, 1, 1] [true, true, false, true, true, true]
+    = some 47 := by decide
 
 example : sumCheckedLoop (addChecked ⟨true, 8⟩) 0 [100, 100, 100, -100] [true, false, true, true]
     = .error .overflow := rfl
